@@ -142,3 +142,31 @@ pub fn take_output() -> String {
         String::from_utf8_lossy(&buf).into_owned()
     })
 }
+
+// ------------------------------------------------------------------ composition
+
+/// Concatenation of workloads (index spaces laid end to end).
+pub struct Compose { pub parts: Vec<Box<dyn Workload>> }
+
+impl Compose {
+    fn locate(&self, idx: u64) -> (usize, u64) {
+        let mut i = idx;
+        for (k, p) in self.parts.iter().enumerate() {
+            let t = p.total();
+            if i < t { return (k, i); }
+            i -= t;
+        }
+        (self.parts.len() - 1, 0)
+    }
+}
+
+impl Workload for Compose {
+    fn total(&self) -> u64 { self.parts.iter().map(|p| p.total()).sum() }
+    fn run(&mut self, idx: u64) -> Outcome { let (k, i) = self.locate(idx); self.parts[k].run(i) }
+    fn describe(&mut self, idx: u64) -> String { let (k, i) = self.locate(idx); self.parts[k].describe(i) }
+    fn rule(&self) -> String { self.parts.iter().enumerate().map(|(i, p)| format!("part {}: {}", i + 1, p.rule())).collect::<Vec<_>>().join(" || ") }
+    fn exhaustive_part(&self) -> Option<String> {
+        let v: Vec<String> = self.parts.iter().filter_map(|p| p.exhaustive_part()).collect();
+        if v.is_empty() { None } else { Some(v.join("; ")) }
+    }
+}
